@@ -354,3 +354,140 @@ func c17WholeCharacterCopied(c *Check, rule string) {
 		c.Fail(rule, "loops", token.NoPos, "undecided: no loop over the characters of a string found")
 	}
 }
+
+// ---- E12: a loop does not range over a collection that was created empty the statement before.
+// `cpy.M = make(map[K]V, len(src.M)); for k, v := range cpy.M { cpy.M[k] = v }` is the copy loop with the wrong
+// operand: it ranges over the map that was just made, never runs, and the "copy" is empty (C10P: every spooled copy of
+// the metadata lost its original-recipient table). Decided per block: for a range statement over an expression X
+// (variable or field path), the nearest preceding assignment to X in the same or an enclosing block, with nothing in
+// between that mentions X, is not `make(…)` with length 0 / an empty composite literal / nil.
+func emptyRangeSeen(c *Check, fis []*FuncInfo) {
+	c.Rule("E12", "no loop ranges over a collection that was created empty by the assignment before it (a copy loop whose operand is the fresh destination never runs: the copy is empty)", 0)
+	defer func() { c.HoldConst("E12", "loops-examined", token.NoPos, true, "") }()
+	seen := map[*types.Func]bool{}
+	for _, fi := range fis {
+		if fi == nil || seen[fi.Obj] || fi.Decl.Body == nil {
+			continue
+		}
+		seen[fi.Obj] = true
+		info := fi.Info()
+		n := 0
+		var walk func(stmts []ast.Stmt, outer [][]ast.Stmt)
+		emptyCtor := func(e ast.Expr) bool {
+			e = ast.Unparen(e)
+			if isNilIdent(info, e) {
+				return true
+			}
+			switch x := e.(type) {
+			case *ast.CompositeLit:
+				switch info.TypeOf(x).Underlying().(type) {
+				case *types.Map, *types.Slice:
+					return len(x.Elts) == 0
+				}
+			case *ast.CallExpr:
+				if id, ok := ast.Unparen(x.Fun).(*ast.Ident); ok && id.Name == "make" && info.Uses[id] == types.Universe.Lookup("make") && len(x.Args) >= 1 {
+					switch info.TypeOf(x.Args[0]).Underlying().(type) {
+					case *types.Map:
+						return true
+					case *types.Slice:
+						if len(x.Args) >= 2 {
+							if tv, ok := info.Types[x.Args[1]]; ok && tv.Value != nil && tv.Value.String() == "0" {
+								return true
+							}
+						}
+					}
+				}
+			}
+			return false
+		}
+		mentionsExpr := func(s ast.Node, txt string) bool {
+			found := false
+			ast.Inspect(s, func(y ast.Node) bool {
+				if e, ok := y.(ast.Expr); ok && exprStr(e) == txt {
+					found = true
+				}
+				return !found
+			})
+			return found
+		}
+		check := func(rs *ast.RangeStmt, before []ast.Stmt, outer [][]ast.Stmt) {
+			x := ast.Unparen(rs.X)
+			switch x.(type) {
+			case *ast.Ident, *ast.SelectorExpr:
+			default:
+				return
+			}
+			switch info.TypeOf(x).Underlying().(type) {
+			case *types.Map, *types.Slice:
+			default:
+				return
+			}
+			txt := exprStr(x)
+			lists := append([][]ast.Stmt{before}, outer...)
+			for _, list := range lists {
+				for i := len(list) - 1; i >= 0; i-- {
+					s := list[i]
+					if as, ok := s.(*ast.AssignStmt); ok && len(as.Lhs) == len(as.Rhs) {
+						for j, l := range as.Lhs {
+							if exprStr(l) == txt {
+								n++
+								key := fi.Pkg.Types.Name() + "." + refName(fi.Obj) + ":range" + itoa(n)
+								c.Hold("E12", key, rs.Pos(), !emptyCtor(as.Rhs[j]), "line "+itoa(p0(c.P, rs.Pos()))+": the loop ranges over "+txt+", which line "+itoa(p0(c.P, as.Pos()))+" has just created empty ("+exprStr(as.Rhs[j])+"): the body never runs – if this is a copy loop the operand is the destination instead of the source and the copy stays empty")
+								return
+							}
+						}
+					}
+					if mentionsExpr(s, txt) {
+						return // filled, passed on or re-assigned in a way this rule does not follow
+					}
+				}
+			}
+		}
+		walk = func(stmts []ast.Stmt, outer [][]ast.Stmt) {
+			for i, s := range stmts {
+				before := stmts[:i]
+				if rs, ok := s.(*ast.RangeStmt); ok {
+					check(rs, before, outer)
+				}
+				sub := func(b *ast.BlockStmt) {
+					if b != nil {
+						walk(b.List, append([][]ast.Stmt{before}, outer...))
+					}
+				}
+				switch x := s.(type) {
+				case *ast.BlockStmt:
+					sub(x)
+				case *ast.IfStmt:
+					sub(x.Body)
+					for e := x.Else; e != nil; {
+						switch y := e.(type) {
+						case *ast.BlockStmt:
+							sub(y)
+							e = nil
+						case *ast.IfStmt:
+							sub(y.Body)
+							e = y.Else
+						default:
+							e = nil
+						}
+					}
+				case *ast.ForStmt:
+					// a loop body may run after its own later statements: only look at what precedes the loop when the
+					// body itself does not assign the operand (handled by mentionsExpr on the way back)
+					sub(x.Body)
+				case *ast.RangeStmt:
+					sub(x.Body)
+				case *ast.SwitchStmt:
+					for _, cc := range x.Body.List {
+						walk(cc.(*ast.CaseClause).Body, append([][]ast.Stmt{before}, outer...))
+					}
+				case *ast.TypeSwitchStmt:
+					for _, cc := range x.Body.List {
+						walk(cc.(*ast.CaseClause).Body, append([][]ast.Stmt{before}, outer...))
+					}
+				}
+			}
+		}
+		walk(fi.Decl.Body.List, nil)
+	}
+}
